@@ -328,6 +328,8 @@ class TT():
             else:
                 self.cores[k] = core.clone()
                 self.__N[k] = core.shape[1]
+        self.shape = [(m, n) for m, n in zip(self.__M, self.__N)
+                      ] if self.__is_ttm else [n for n in self.N]
 
     def full(self):
         """
